@@ -187,6 +187,22 @@ impl Hist {
                 Ok(p) => {
                     desc.push(json!({"pool": p, "tick_spacing": sp, "fee_rate": fee, "sqrt_price": price.to_string(), "adaptive": adaptive, "v2": v2}));
                     if cfg.seed_growth && rnd::chance(&mut w.r, 2, 3) {
+                        if cfg.w_reward > 0 && w.r.gen() {
+                            // rewards that exist before the first position, so that their accumulators can be seeded too
+                            for idx in 0..w.r.gen_range(1..=3u8) {
+                                let mint = w.add_spl_mint(6);
+                                let (ix, vault) = w.init_reward_ix(p, idx, mint);
+                                if w.exec(ix).ok() {
+                                    w.set_token_balance(vault, u64::MAX / 8);
+                                    w.pools[p].rewards.push((mint, vault));
+                                    if w.r.gen() {
+                                        let e = rnd::log_u128(&mut w.r, 100);
+                                        let ix = w.set_emissions_ix(p, idx, e);
+                                        let _ = w.exec(ix);
+                                    }
+                                }
+                            }
+                        }
                         seed_pool_growth(w, p);
                         for m in monitors.iter_mut() {
                             m.seeded(w, p);
@@ -1145,5 +1161,13 @@ pub fn seed_pool_growth(w: &mut World, p: usize) {
     let gb = pick(&mut w.r);
     a.data[codec::POOL_OFF_FEE_GROWTH_A..codec::POOL_OFF_FEE_GROWTH_A + 16].copy_from_slice(&ga.to_le_bytes());
     a.data[codec::POOL_OFF_FEE_GROWTH_B..codec::POOL_OFF_FEE_GROWTH_B + 16].copy_from_slice(&gb.to_le_bytes());
+    // reward growth accumulators of rewards that are already initialised (same argument: nothing refers to them yet)
+    for (k, ri) in st.reward_infos.iter().enumerate() {
+        if ri.initialized() {
+            let g = pick(&mut w.r);
+            let off = codec::POOL_OFF_REWARD_INFOS + k * 128 + 112;
+            a.data[off..off + 16].copy_from_slice(&g.to_le_bytes());
+        }
+    }
     w.bank.set(key, a);
 }
